@@ -285,6 +285,15 @@ def scale_leads(obj, f):
     o["leads"] = [l * f for l in o["leads"]]
     if "o" in o.get("opts", {}):
         o["opts"]["o"] = [l * f for l in o["opts"]["o"]]
+    # the lead-time axis is labelled by the lead times themselves (they scale along); lead-time days are not a function of the scaled values
+    axes = []
+    for ax in o.get("axes", []):
+        if ax["a"] == "leadtime":
+            ax = dict(ax, keys=[k * f for k in ax["keys"]])
+        if ax["a"] != "leadtimeday":
+            axes.append(ax)
+    if "axes" in o:
+        o["axes"] = axes
     return o
 
 
